@@ -317,6 +317,66 @@ def stress_oracle(r):
     return bad
 
 
+def e2e_oracle(r):
+    bad = []
+    acc = [a or [] for a in (r.get("accepted") or [])]
+    accepted = set(i for a in acc for i in a)
+
+    def order_ok(seq):
+        last = {}
+        for i in seq:
+            mm = re.match(r".*\.c(\d+)\.(\d+)$", i)
+            if not mm:
+                continue
+            c, n = int(mm.group(1)), int(mm.group(2))
+            if c in last and n <= last[c]:
+                return "caller %d: message %d after message %d" % (c, n, last[c])
+            last[c] = n
+        return None
+
+    if r["part"] == "actor":
+        got = r.get("received") or []
+        tag = "RemoteTell -> real actor (%d callers x %d)" % (r["callers"], r["per_caller"])
+        if len(set(got)) != len(got):
+            bad.append(("remote-tell:delivered-twice", "%s: the actor received a message twice: %s" % (tag, sorted(set(i for i in got if got.count(i) > 1))[:4])))
+        missing = sorted(accepted - set(got))
+        if missing:
+            bad.append(("remote-tell:accepted-not-delivered", "%s: %d accepted message(s) never reached the running actor, e.g. %s" % (tag, len(missing), missing[:4])))
+        o = order_ok(got)
+        if o:
+            bad.append(("remote-tell:order", "%s: the actor saw %s" % (tag, o)))
+        extra = [i for i in got if i not in accepted]
+        if extra:
+            bad.append(("remote-tell:unaccepted-delivered", "%s: delivered although the send returned an error: %s" % (tag, extra[:4])))
+    else:
+        tag = "RemoteTell -> faulty destination (%d callers x %d)" % (r["callers"], r["per_caller"])
+        batches = r.get("batches") or []
+        delivered = [i for b in batches if b["v"] == 0 for i in b["ids"]]
+        failed = [i for b in batches if b["v"] != 0 for i in b["ids"]]
+        dls = r.get("deadletters") or []
+        seq = [i for b in batches for i in b["ids"]]
+        if len(set(seq)) != len(seq):
+            bad.append(("coalescer:message-sent-twice", "%s: a message reached the destination twice" % tag))
+        o = order_ok(seq)
+        if o:
+            bad.append(("coalescer:order", "%s: at the destination %s" % (tag, o)))
+        dup = sorted(set(i for i in dls if dls.count(i) > 1))
+        if dup:
+            bad.append(("deadletter:published-twice", "%s: dead-lettered more than once: %s" % (tag, dup[:4])))
+        both = sorted(set(delivered) & set(dls))
+        if both:
+            bad.append(("deadletter:delivered-and-dead-lettered", "%s: %s" % (tag, both[:4])))
+        nodl = sorted(i for i in failed if i not in dls)
+        if nodl:
+            bad.append(("deadletter:failed-batch-not-published", "%s: %d message(s) of failed batches never appeared in the sender's dead letters, e.g. %s" % (tag, len(nodl), nodl[:4])))
+        lost = sorted(i for i in accepted if i not in delivered and i not in dls)
+        if lost and not nodl:
+            bad.append(("remote-tell:accepted-unaccounted", "%s: %d accepted message(s) neither delivered nor dead-lettered, e.g. %s" % (tag, len(lost), lost[:4])))
+        if r.get("bad_deadletters"):
+            bad.append(("deadletter:wrong-envelope", "%s: %s" % (tag, r["bad_deadletters"][:3])))
+    return bad
+
+
 def run(ctx):
     ctx.trusted += ["scripted transport = the real inet.ProtoServer with a parking handler (in-process, loopback TCP)",
                     "label expansion of harness events (checks/C27.py expand) — a wrong expansion can only make the replay fail"]
@@ -335,12 +395,24 @@ def run(ctx):
         for s in scripts:
             f.write(json.dumps(s) + "\n")
     env = {"VERIF_C27_ROUNDS": "200" if ctx.thorough else "40", "VERIF_C27_CLIENT_ROUNDS": "80" if ctx.thorough else "20"}
+    ctx.log("running coalescer harness")
     rc, out = ctx.go_test("internal/remoteclient", "^TestVerifC27", ["zz_verif_C27_test.go"], env=env, timeout=800)
     traces = read_jsonl(os.path.join(ctx.work, "c27_traces.jsonl"))
     stress = read_jsonl(os.path.join(ctx.work, "c27_stress.jsonl")) + read_jsonl(os.path.join(ctx.work, "c27_client.jsonl"))
     if rc != 0 or len(traces) != len(scripts):
         ctx.tie_broken("go-harness internal/remoteclient coalescer", out)
 
+    # end to end through the actor system's own remoting client and enqueueCoalescedFailure
+    e2e_p = os.path.join(ctx.work, "c27_e2e.jsonl")
+    if os.path.exists(e2e_p):
+        os.remove(e2e_p)
+    ctx.log("running actor-level harness")
+    rc_e, out_e = ctx.go_test("actor", "^TestVerifC27Actor", ["zz_verif_C27_test.go"], env={"CGO_ENABLED": "0"}, timeout=1200)  # internal linking: the actor test binary links 3x faster
+    e2e = read_jsonl(e2e_p)
+    if rc_e != 0 or len(e2e) != 2:
+        ctx.tie_broken("go-harness actor remoting/dead letters", out_e)
+
+    ctx.log("oracle + model replay")
     # ---- property oracle
     reported = {}
     n_viol = 0
@@ -372,6 +444,12 @@ def run(ctx):
             report(sig, what, {"object": "coalescer stress" if r["level"] == "coalescer" else "Client.RemoteTell/Close", "round": slim,
                                "rerun": "VERIF_SEED=%d bin/check C27 %s" % (ctx.seed, ctx.tier)})
 
+    for r in e2e:
+        for sig, what in e2e_oracle(r):
+            slim = {k: (v if k not in ("accepted", "received", "batches", "deadletters") else str(v)[:300]) for k, v in r.items()}
+            report(sig, what, {"object": "actorSystem.remoting.RemoteTell + enqueueCoalescedFailure", "run": slim,
+                               "rerun": "VERIF_SEED=%d bin/check C27 %s" % (ctx.seed, ctx.tier)})
+
     # ---- the Coq model replays every script trace
     matched = None
     detail = {}
@@ -395,6 +473,7 @@ def run(ctx):
             ctx.notes.append("the real traces are executions of the '%s' shutdown model, for which Coq proves the loss (C27_close_refuted_*)" % matched)
 
     # ---- theorems
+    ctx.log("building Coq closure")
     if not ctx.coq_property():
         if not any(f.kind == "violation" for f in ctx.findings):
             ctx.proof_broken("Properties/C27.v (%s)" % getattr(ctx, "failed_at", "?"), getattr(ctx, "coq_log", ""))
@@ -417,7 +496,10 @@ def run(ctx):
             if e["k"] == "sub":
                 res_hist[e["res"]] = res_hist.get(e["res"], 0) + 1
     ctx.coverage.update({
-        "evaluations": len(traces) + len(stress),
+        "evaluations": len(traces) + len(stress) + len(e2e),
+        "e2e": [{"part": r["part"], "accepted": sum(len(a or []) for a in r.get("accepted") or []), "received": len(r.get("received") or []),
+                 "batches": len(r.get("batches") or []), "failed_batches": sum(1 for b in r.get("batches") or [] if b["v"] != 0),
+                 "deadletters": len(r.get("deadletters") or [])} for r in e2e],
         "distinct_nontrivial": len(distinct) + sum(1 for r in stress if r.get("handled") or r.get("rejected")),
         "rule": "scripts: corpus (close with more than one batch queued, late submit through the slow-path hook, failing batches, backpressure) + seeded random op scripts over maxBatch 1..4; non-trivial = a batch is flushed after close was requested or a batch fails; distinct by event trace. stress rounds: non-trivial = some batch failed or some send was rejected",
         "samples": [traces[0]["events"][:12] if traces else None, scripts[-1] if scripts else None,
